@@ -138,7 +138,7 @@ func checkNoSharedWrites(p *core.Program, r *core.Report, prefix string, entries
 	r.Count("of which to local/fresh memory", nLocal)
 	for _, e := range entries {
 		name := core.FuncName(e)
-		sum := eff.Summary[e]
+		sum := eff.Writes(e)
 		bad := 0
 		for _, ef := range sum {
 			rule := prefix + ".1"
@@ -178,7 +178,7 @@ func checkNoSharedWrites(p *core.Program, r *core.Report, prefix string, entries
 		if !p.InModule(fn) {
 			continue
 		}
-		for _, ef := range eff.Summary[fn] {
+		for _, ef := range eff.Writes(fn) {
 			if ef.Root.Kind == core.RParam {
 				builders = append(builders, fn)
 				break
@@ -203,7 +203,7 @@ func checkNoSharedWrites(p *core.Program, r *core.Report, prefix string, entries
 			args := site.Common().Args
 			ok := true
 			detail := ""
-			for _, ef := range eff.Summary[b] {
+			for _, ef := range eff.Writes(b) {
 				if ef.Root.Kind != core.RParam || ef.Root.Idx >= len(args) {
 					continue
 				}
